@@ -313,15 +313,32 @@ fn execute(pa: &Params, ops: &[Op]) -> Vec<(Out, Vec<Vec<Ev>>, Digest)> {
   capture::enable();
   let mut w = build(pa);
   let mut res = Vec::new();
+  let mut announce_no: u64 = 0;
   for o in ops {
     let out = match o {
       // Discovery::handle_subscription_reader / handle_publication_reader, Sample::Value
       Op::Announce(k, t, q) => {
+        // Locators are not part of the premise "keeps the QoS it was announced with": every
+        // announcement carries different locator lists (0, 1 or 2 unicast, 0 or 1 multicast), so a
+        // re-announcement of a matched endpoint that has "moved" must still be a no-op for the
+        // matched sets and counts (seeded change C11-2A).
+        announce_no += 1;
+        let loc = |i: u64| -> crate::structure::locator::Locator {
+          std::net::SocketAddr::from(([127, 0, 0, 1], 7400 + ((announce_no * 7 + i) % 2000) as u16)).into()
+        };
+        let uni: Vec<_> = (0..announce_no % 3).map(loc).collect();
+        let multi: Vec<_> = (0..(announce_no / 3) % 2).map(|i| loc(i + 5)).collect();
         if k.0 {
-          let d = w.db.write().unwrap().update_publication(&writer_data(*k, *t, &qos_of(*q)));
+          let mut wd = writer_data(*k, *t, &qos_of(*q));
+          wd.writer_proxy.unicast_locator_list = uni;
+          wd.writer_proxy.multicast_locator_list = multi;
+          let d = w.db.write().unwrap().update_publication(&wd);
           w.ev.verif_discovery_notification(WriterUpdated { discovered_writer_data: d });
         } else {
-          let d = w.db.write().unwrap().update_subscription(&reader_data(*k, *t, &qos_of(*q)));
+          let mut rd = reader_data(*k, *t, &qos_of(*q));
+          rd.reader_proxy.unicast_locator_list = uni;
+          rd.reader_proxy.multicast_locator_list = multi;
+          let d = w.db.write().unwrap().update_subscription(&rd);
           w.ev.verif_discovery_notification(ReaderUpdated { discovered_reader_data: d });
         }
         Out::Unit
